@@ -526,6 +526,48 @@ impl<const P: u8, const G: i8, const N: usize, const D: usize> NbDut<P, G, N, D>
                         NbStage::WaitRx2Start => NbStage::InRx2,
                         NbStage::InRx2 => NbStage::InRx2,
                     };
+                    let intr = self.env.borrow().txn.nb_intrude;
+                    let at = match stage {
+                        NbStage::WaitRx1Start => 1,
+                        NbStage::InRx1 => 2,
+                        NbStage::WaitRx2Start => 3,
+                        _ => 0,
+                    };
+                    if intr != 0 && at != 0 && (intr & 3) == at {
+                        // a request the state machine cannot serve in this state: it must be refused
+                        self.env.borrow_mut().bump("fault.nb-intrusion");
+                        let r = match (intr >> 2) & 3 {
+                            0 => {
+                                let env = self.env.clone();
+                                let dev = &mut self.dev;
+                                let r = guarded(&env, || dev.send(&[0xEE, 0xEE], 99, false));
+                                if let Ok(r) = &r {
+                                    let (resp, code) = describe_nb(r);
+                                    let now = env.borrow().now_ms;
+                                    env.borrow_mut().push(Ev::NbEvent { ev: "SendDataRequest(intruding)".into(), resp, now, code });
+                                }
+                                r
+                            }
+                            1 => {
+                                let mode = otaa_mode(&self.env.borrow().id);
+                                let env = self.env.clone();
+                                let dev = &mut self.dev;
+                                let r = guarded(&env, || dev.join(mode));
+                                if let Ok(r) = &r {
+                                    let (resp, code) = describe_nb(r);
+                                    let now = env.borrow().now_ms;
+                                    env.borrow_mut().push(Ev::NbEvent { ev: "Join(intruding)".into(), resp, now, code });
+                                }
+                                r
+                            }
+                            _ => self.event(nb_device::Event::RadioEvent(nb_device::radio::Event::Phy(NbPhyEvent::Noise)), "Radio(Noise, intruding)"),
+                        };
+                        match r {
+                            Ok(Err(nb_device::Error::State(_))) | Ok(Ok(R::NoUpdate)) | Ok(Err(nb_device::Error::Radio(_))) => {}
+                            Ok(other) => return OpResult::Unexpected(format!("a request issued in the middle of the procedure was answered {:?}", other.map_err(|_| ()))),
+                            Err(e) => return e,
+                        }
+                    }
                     let cut = self.env.borrow().txn.nb_power_cut;
                     if (cut == Some(1) && stage == NbStage::WaitRx1Start) || (cut == Some(2) && stage == NbStage::WaitRx2Start) {
                         // between two events of the procedure the application stores the session; then the power goes
@@ -591,9 +633,17 @@ impl<const P: u8, const G: i8, const N: usize, const D: usize> NbDut<P, G, N, D>
                 if let Some(spec) = next {
                     {
                         let mut e = self.env.borrow_mut();
-                        let mut buf = [0u8; 256];
-                        let n = e.deliver(&spec, win, &mut buf);
-                        e.nb_rx_buf = buf[..n].to_vec();
+                        let lost = matches!(&e.fault, Some(f) if f.pos <= e.pos && e.pos <= f.pos + f.extra);
+                        if lost {
+                            // the radio fails while handing the frame over: nobody ever sees it (it is not judged)
+                            e.push(Ev::Note("a frame on air is lost to the radio error that follows".into()));
+                            e.bump("probe.frame-lost-to-radio-error");
+                            e.nb_rx_buf = Vec::new();
+                        } else {
+                            let mut buf = [0u8; 256];
+                            let n = e.deliver(&spec, win, &mut buf);
+                            e.nb_rx_buf = buf[..n].to_vec();
+                        }
                     }
                     resp = match self.event(nb_device::Event::RadioEvent(nb_device::radio::Event::Phy(NbPhyEvent::FrameReady)), "Radio(FrameReady)") {
                         Ok(r) => r,
